@@ -120,6 +120,11 @@ package dagsync
 // blocks where D is the depth of the original selector (unbounded if it has none); the segments' depths
 // sum up to depthSoFar and never exceed D; the loop stops once D is reached, at the stop CID, or when
 // the hook names no further block.
+// Sync runs the installed hook, which may count blocks and tell the segment controller what to do next:
+//@   at call Sync#1: after havoc syncedCount, segSync.nextSyncCid, segSync.err
+//@   at call Sync#2: after havoc syncedCount, segSync.nextSyncCid, segSync.err
+// ASSUMED: the total depth walked over all segments of one sync stays below 2^62 blocks
+//@   at call Sync#2: after assume depthSoFar + nextDepth <= 4611686018427387904
 //@   ghost segSync0 := zero("*cid.Cid")
 //@   at call reset#1: ghost segSync0 := segSync.nextSyncCid
 //@   at call withRecursionLimit#1: assert arg0 == sel && arg1.mode == 1 && arg1.depth == nextDepth
